@@ -720,6 +720,13 @@ class IntegroPINNCondition(Condition):
         self.integral_sampler = integral_sampler
 
         self.data_functions = self._setup_data_functions(data_functions, self.sampler)
+        if isinstance(sampler, StaticSampler) and sampler.resample_interval == math.inf:
+            for fn in self.data_functions.values():
+                if torch.is_tensor(fn.fun) and fn.fun.dim() == 2:
+                    # pre-evaluated on the points as sampled, (n, k): forward works
+                    # with points of the shape (n, 1, dim), so the values need the
+                    # same axis
+                    fn.fun = fn.fun.unsqueeze(1)
 
         if self.sampler.is_adaptive:
             self.last_unreduced_loss = None
